@@ -596,7 +596,8 @@ def c07_check_program(steps: list, sel: str, seed: int) -> dict:
 
 
 FAULT_KINDS = ["raise", "unknown-name", "list2", "none", "scalar", "wrongdtype", "wrongshape", "truncated",
-               "nested-bad", "ragged", "opaque", "input-name", "noniterable", "empty", "nested-list"]
+               "nested-bad", "ragged", "opaque", "input-name", "noniterable", "empty", "nested-list",
+               "objstr-wrongshape", "str-wrongshape", "objstr-wrongrank", "bool-wrongshape"]
 
 
 def make_fault(kind: str, model, rng_id: int) -> dict:
@@ -612,6 +613,11 @@ def make_fault(kind: str, model, rng_id: int) -> dict:
         "ragged": {"r": "ragged"},
         "opaque": {"r": "opaque", "pid": 3},
         "nested-list": {"r": "list", "xs": [{"r": "list", "xs": [A("c64", [3], 3)]}]},
+        # right element class for string / bool outputs, wrong shape or rank
+        "objstr-wrongshape": A("object", [7], 3),
+        "str-wrongshape": A("str", [7, 1], 3),
+        "objstr-wrongrank": A("object", [1, 1, 1, 1, 7], 3),
+        "bool-wrongshape": A("bool", [7, 1, 1, 1, 1], 1),
     }
     if kind == "raise":
         return {"raise": {"isExc": True, "id": rng_id}}
